@@ -7,71 +7,18 @@
   it is checked by compiling generated programs (valid literals compared with the model,
   invalid literals must each fail to compile), not by a theorem.
 -/
+import BioSeq.Lemmas.MacroLemmas
 import BioSeq.Macros
 import BioSeq.Props.C01
 namespace BioSeq
 namespace C16
 open Macros
 
-/-- the macro's per-character table agrees with the runtime parser of codec `c`:
-    every byte the runtime parser accepts is ASCII and maps to one base with exactly the
-    bits `push` would append; every table entry is one base of `width` bits -/
-def tableOk (c : Codec) (t : CharTable) : Bool :=
-  (List.range 256).all (fun cp => match c.tryFromAscii cp with
-    | none => true
-    | some code => decide (cp < 128) && charEntry t cp == some (1, toBitsLE c.width code))
-  && t.all (fun e => match e with
-    | none => true
-    | some (k, b) => k == 1 && b.length == c.width)
-  && decide (t.length = 128)
-
-def tableFailures (c : Codec) (t : CharTable) : List Nat :=
-  (List.range 256).filter (fun cp => match c.tryFromAscii cp with
-    | none => false
-    | some code => !(decide (cp < 128) && charEntry t cp == some (1, toBitsLE c.width code)))
-
 theorem dna_table_ok (p : Profile) : tableOk (Gen.dna p) (dnaTable p) = true := by
   cases p <;> decide +kernel
 
 theorem iupac_table_ok (p : Profile) : tableOk (Gen.iupac p) (iupacTable p) = true := by
   cases p <;> decide +kernel
-
-structure TableWF (c : Codec) (t : CharTable) : Prop where
-  accepts : ∀ cp code, c.tryFromAscii cp = some code → cp < 128 ∧ charEntry t cp = some (1, toBitsLE c.width code)
-  entries : ∀ cp k b, charEntry t cp = some (k, b) → k = 1 ∧ b.length = c.width
-  ascii : ∀ cp, cp ≥ 128 → charEntry t cp = none
-
-theorem lookup_ge_none (t : List (Option Nat)) (b : Nat) (h : t.length ≤ b) : lookup t b = none := by
-  simp [lookup, List.getD_eq_getElem?_getD, List.getElem?_eq_none h]
-
-theorem tableWF_of_ok (c : Codec) (t : CharTable) (tab : List (Option Nat)) (htab : c.tryFromAscii = lookup tab)
-    (hlen : tab.length = 256) (h : tableOk c t = true) : TableWF c t := by
-  simp only [tableOk, Bool.and_eq_true, List.all_eq_true, List.mem_range, decide_eq_true_eq] at h
-  obtain ⟨⟨h1, h2⟩, h3⟩ := h
-  refine ⟨?_, ?_, ?_⟩
-  · intro cp code hc
-    have hlt : cp < 256 := by
-      apply Classical.byContradiction
-      intro hge
-      rw [htab, lookup_ge_none tab cp (by omega)] at hc
-      cases hc
-    have := h1 cp hlt
-    rw [hc] at this
-    simpa using this
-  · intro cp k b he
-    unfold charEntry at he
-    rw [List.getD_eq_getElem?_getD] at he
-    cases hq : t[cp]? with
-    | none => simp [hq] at he
-    | some e =>
-      simp [hq] at he
-      subst he
-      have := h2 _ (List.mem_of_getElem? hq)
-      simpa using this
-  · intro cp hge
-    unfold charEntry
-    rw [List.getD_eq_getElem?_getD, List.getElem?_eq_none (by omega)]
-    rfl
 
 theorem dna_tableWF (p : Profile) : TableWF (Gen.dna p) (dnaTable p) := by
   cases p
@@ -82,55 +29,6 @@ theorem iupac_tableWF (p : Profile) : TableWF (Gen.iupac p) (iupacTable p) := by
   cases p
   · exact tableWF_of_ok _ _ Gen.iupac_debug_tryFromAscii rfl (by decide +kernel) (iupac_table_ok .debug)
   · exact tableWF_of_ok _ _ Gen.iupac_release_tryFromAscii rfl (by decide +kernel) (iupac_table_ok .release)
-
-/-- the loop on a string the runtime parser accepts appends exactly the runtime packing -/
-theorem seqLoop_valid (c : Codec) (t : CharTable) (tw : TableWF c t) (cps : List Nat)
-    (hv : ∀ cp ∈ cps, (c.tryFromAscii cp).isSome) (pos n : Nat) (acc : Bits) :
-    seqLoop t pos cps (n, acc) = .ok (n + cps.length, acc ++ pack c.width (C01.symbolsOf c cps)) := by
-  induction cps generalizing pos n acc with
-  | nil => simp [seqLoop, C01.symbolsOf]
-  | cons cp rest ih =>
-    have h := hv cp (by simp)
-    obtain ⟨code, hc⟩ := Option.isSome_iff_exists.mp h
-    obtain ⟨_, he⟩ := tw.accepts cp code hc
-    simp only [seqLoop, he]
-    rw [ih (fun x hx => hv x (by simp [hx]))]
-    simp only [C01.symbolsOf, List.filterMap_cons, hc, pack_cons, List.length_cons, List.append_assoc]
-    congr 2
-    omega
-
-/-- **literal = runtime parse**: for every string the runtime parser accepts (any length,
-    the empty literal included) the macro yields the same number of symbols and the same bits;
-    equal length/symbols/hash/display then follow from C02 (all depend on the bits only) -/
-theorem macro_eq_runtime (c : Codec) (wf : CodecWF c) (t : CharTable) (tw : TableWF c t) (cps : List Nat)
-    (v : Bits) (h : Seq.parseBytes c cps = .ok v) :
-    macroSeq t c.width cps = .ok (cps.length, v) := by
-  have hall : ∀ b ∈ cps, (c.tryFromAscii b).isSome := (C01.parse_ok_iff c wf cps).mp ⟨v, h⟩
-  have hascii : cps.any (fun c => decide (c ≥ 128)) = false := by
-    rw [List.any_eq_false]
-    intro cp hcp
-    obtain ⟨code, hc⟩ := Option.isSome_iff_exists.mp (hall cp hcp)
-    have := (tw.accepts cp code hc).1
-    simp; omega
-  obtain ⟨hlen, hs, _⟩ := C01.parse_ok_symbols c wf cps v h
-  have hv : v = pack c.width (C01.symbolsOf c cps) := by
-    rw [C01.parse_spec c wf] at h
-    cases hf : cps.find? (C01.bad c) with
-    | some b => rw [hf] at h; cases h
-    | none => rw [hf] at h; injection h with h; exact h.symm
-  simp only [macroSeq, hascii, Bool.false_eq_true, if_false]
-  rw [seqLoop_valid c t tw cps hall 0 0 []]
-  simp only [Nat.zero_add, List.nil_append]
-  rw [← hv]
-  congr 2
-  apply List.take_of_length_le
-  have : v.length = cps.length * c.width := by
-    have e : Seq.len c v * c.width = v.length := by
-      unfold Seq.len
-      apply Nat.div_mul_cancel
-      rw [hv, pack_length]; exact Nat.dvd_mul_right _ _
-    rw [← e, hlen]
-  omega
 
 /-- the loop stops with an error at the first character outside the macro's table -/
 theorem seqLoop_invalid (t : CharTable) (pre : List Nat) (cp : Nat) (post : List Nat)
